@@ -891,8 +891,6 @@ def judge(d, reference_winner, reference_page_match, rank):
         page = PageType(p[0], p[1], p[2], p[3], tuple(tuple(g) for g in p[4]))
         want = reference_page_match(sel, page)
         if impl.startswith('err:'):
-            if 'Overflow' in impl and d['model'].startswith('err:'):
-                return None
             return f'_page_type_match({sel}, {page}) raised {impl}; css-page-3 gives {want}'
         if impl != ('true' if want else 'false'):
             return f'_page_type_match({sel}, {page}) = {impl}; css-page-3 gives {want}'
@@ -1056,15 +1054,6 @@ def replay_var_inherit_on_root():
     try:
         docs.render('<html style="--x:inherit;width:var(--x)"><body><p>x</p></body></html>')
     except TypeError:
-        return True
-    return False
-
-
-def replay_page_nth_overflow():
-    """known finding: @page :nth(n + 10^400) raises OverflowError."""
-    try:
-        docs.render('<style>@page :nth(n+1' + '0' * 400 + '){margin:1px}</style><p>x</p>')
-    except OverflowError:
         return True
     return False
 
